@@ -3,6 +3,7 @@
 // Profiles: accounting (C04), soundness (C05), misuse (C06), diagnostics (C14), oom (C15).
 #include "../core/seams.h"
 #include "../core/driver.h"
+#include "../core/leakreport.h"
 #include "CppUTest/MemoryLeakDetector.h"
 #include "CppUTest/MemoryLeakWarningPlugin.h"
 #include "CppUTest/TestMemoryAllocator.h"
@@ -282,7 +283,19 @@ struct Engine : public vf::Engine {
         MemoryLeakWarningPlugin::getGlobalDetector();      // the process-wide default detector must not live in the per-run arena
         // one out-of-memory round while the default malloc allocator is current: whatever the C-level switch keeps in its file statics from its first use
         // is then the same object in every process and before every run (a run's outcome must be a function of its own history)
-        setCurrentMallocAllocatorToDefault(); cpputest_malloc_set_out_of_memory(); cpputest_malloc_set_not_out_of_memory(); setCurrentMallocAllocatorToDefault();
+        setCurrentMallocAllocatorToDefault(); cpputest_malloc_set_out_of_memory(); cpputest_malloc_set_not_out_of_memory(); setCurrentMallocAllocatorToDefault();        {   // how does a report say that entries were dropped? learned from one that must (see core/leakreport.h); if it says nothing, nothing is learned and every such report is a violation
+            struct Quiet : public MemoryLeakFailure { void fail(char*) CPPUTEST_OVERRIDE {} } quiet;
+            MemoryLeakDetector* cd = new (::malloc(sizeof(MemoryLeakDetector))) MemoryLeakDetector(&quiet); cd->enable();
+            static char* blocks[400]; const char* f = "a_calibration_file_with_a_name_long_enough_to_fill_the_report_buffer_soon.c";
+            for (int i = 0; i < 2; i++) blocks[i] = cd->allocMemory(defaultMallocAllocator(), 40, f, 7, true);
+            Str small = cd->report(mem_leak_period_all);
+            cd->startChecking();
+            for (int i = 2; i < 400; i++) blocks[i] = cd->allocMemory(defaultMallocAllocator(), 40, f, 7, true);
+            Str big = cd->report(mem_leak_period_all);
+            learnDroppedNotice(small, big);
+            for (int i = 0; i < 400; i++) cd->deallocMemory(defaultMallocAllocator(), blocks[i], f, 8, true);
+            cd->~MemoryLeakDetector(); ::free(cd);
+        }
     }
 
     // -------------------------------------------------------------------------------------------- generation
@@ -472,17 +485,13 @@ struct Engine : public vf::Engine {
         bool none = t.find("No memory leaks were detected.") != Str::npos;
         if (none != (total == 0)) { fail(W, "C04", "report_no_leaks", sg("what", total ? "says no leaks" : "lists leaks"), sfmt("op %zu: report for period %d says '%s' but the model holds %zu blocks", opIdx, q, none ? "No memory leaks" : "leaks", total)); return; }
         if (total == 0) return;
-        Vec<Str> got; size_t pos = 0;
-        while ((pos = t.find("Alloc num (", pos)) != Str::npos) {
-            unsigned num = 0; unsigned long sz = 0; const char* p = t.c_str() + pos;
-            const char* at = strstr(p, " Allocated at: "); const char* andl = at ? strstr(at, " and line: ") : 0; const char* ty = andl ? strstr(andl, ". Type: \"") : 0; const char* te = ty ? strchr(ty + 9, '"') : 0;
-            if (at && andl && ty && te && sscanf(p, "Alloc num (%u) Leak size: %lu", &num, &sz) == 2) got.push_back(sfmt("%u|%lu|%s|%d|%s", num, sz, Str(at + 15, (size_t)(andl - at - 15)).c_str(), atoi(andl + 11), Str(ty + 9, (size_t)(te - ty - 9)).c_str()));
-            pos += 11;
-        }
-        bool truncated = t.find("Too many memory leaks") != Str::npos;
+        Vec<Str> got; Vec<LeakEntry> ents; long statedTotal = -1; parseLeakReport(t, ents, statedTotal);
+        for (size_t i = 0; i < ents.size(); i++) if (ents[i].complete) got.push_back(sfmt("%u|%lu|%s|%ld|%s", ents[i].num, ents[i].size, ents[i].file.c_str(), ents[i].line, ents[i].type.c_str()));
+        bool says = saysEntriesWereDropped(t);      // (by the sentence learned in initProcess)
+        bool truncated = got.size() < total;      // entries were dropped: judged by counting, not by wording
         std::sort(want.begin(), want.end()); std::sort(got.begin(), got.end());
         if (truncated) probe("report_truncated"); else probe("report_complete");
-        if (!truncated && want != got) {
+        if ((!truncated || !says) && want != got) {      // a report that does not say it is incomplete must be complete
             Str a, b; for (size_t i = 0; i < got.size() && i < 6; i++) a += got[i] + "; "; for (size_t i = 0; i < want.size() && i < 6; i++) b += want[i] + "; ";
             fail(W, "C04", "report_entries", sg("what", got.size() < want.size() ? "entry missing" : (got.size() > want.size() ? "extra entry" : "entry differs")), sfmt("op %zu: report(period %d) lists %zu entries {%s}, model %zu {%s}", opIdx, q, got.size(), a.c_str(), want.size(), b.c_str()));
         }
@@ -493,11 +502,11 @@ struct Engine : public vf::Engine {
                 fail(W, "C04", "report_entries", sg("what", "listed entry not in model (truncated report)"), sfmt("op %zu: %s", opIdx, got[i].c_str())); break;
             }
         }
-        size_t tp = t.find("Total number of leaks: ");
-        long tot = tp == Str::npos ? -1 : atol(t.c_str() + tp + 23);
+        size_t tp = statedTotal < 0 ? Str::npos : 0;
+        long tot = statedTotal;
         if (tot != (long)total) fail(W, "C04", "report_total", sg("what", tp == Str::npos ? "footer missing" : "wrong total"), sfmt("op %zu: report states %ld leaks, model %zu", opIdx, tot, total));
         if (tot != (long)total) fail(W, "C14", "true_total", sg("what", tp == Str::npos ? "footer missing" : "wrong total"), sfmt("op %zu: report states %ld leaks, model %zu (listed %zu, truncated %d)", opIdx, tot, total, got.size(), (int)truncated));
-        if (!truncated && got.size() < total) fail(W, "C14", "too_many_notice", sg("what", "entries dropped without notice"), sfmt("op %zu: %zu of %zu listed", opIdx, got.size(), total));
+        if (truncated && !says) fail(W, "C14", "too_many_notice", sg("what", "entries dropped without notice"), sfmt("op %zu: %zu of %zu listed", opIdx, got.size(), total));
     }
 
     void clearBuffer(World& W) {      // startChecking() is the only way to clear the message buffer; the period is restored at once
